@@ -1340,21 +1340,29 @@ Qed.
 (* ------------------------------------------------------------------ what reaches coap_dispatch *)
 From LibcoapV Require Import Wire.OptCodec Wire.Pdu Wire.PduProofs.
 
-(* coap_read_session hands a returned frame to coap_pdu_parse when it has more than 2 bytes *)
+(* coap_read_session hands a returned frame of at least 2 bytes (the size of a CoAP-over-WebSocket
+   header) to coap_pdu_parse *)
 Inductive ws_obs := WDeliver (m : msg) | WIgnored (p : bytes) | WOther (e : ws_ev).
 Definition ws_observe_ev (e : ws_ev) : ws_obs :=
   match e with
-  | WMsg p => if 2 <? len p then match parse WS p with Some m => WDeliver m | None => WIgnored p end
+  | WMsg p => if 2 <=? len p then match parse WS p with Some m => WDeliver m | None => WIgnored p end
               else WIgnored p
   | _ => WOther e
   end.
 Definition ws_observe (evs : list ws_ev) : list ws_obs := map ws_observe_ev evs.
 
+Lemma ws_serialize_len m : 2 <= len (serialize WS m).
+Proof.
+  unfold serialize, header. rewrite len_app, !len_cons, len_nil.
+  pose proof (len_nonneg (token_area (m_token m) ++ content_area m)). lia.
+Qed.
+
 Theorem ws_observe_messages ms :
-  Forall (fun m => msg_wf m /\ 2 < len (serialize WS m)) ms ->
+  Forall msg_wf ms ->
   ws_observe (map (fun m => WMsg (serialize WS m)) ms) = map (fun m => WDeliver (norm_fields WS m)) ms.
 Proof.
-  induction 1 as [|m tl [W Hl] _ IH]; [reflexivity|].
-  cbn [map ws_observe ws_observe_ev]. replace (2 <? len (serialize WS m)) with true by lia.
+  induction 1 as [|m tl W _ IH]; [reflexivity|].
+  cbn [map ws_observe ws_observe_ev]. pose proof (ws_serialize_len m).
+  replace (2 <=? len (serialize WS m)) with true by lia.
   rewrite parse_serialize by assumption. f_equal. exact IH.
 Qed.
